@@ -37,6 +37,11 @@ func init() {
 		Doc: "long streams (two key rotations): the relay delivers records 0..k+499 (or k+999) and then, in place of the next record, replays record k - the record that used the same nonce position one (two) key epochs earlier - for k in {0,1,2,499}, XX and KK, three equal-plaintext / distinct-plaintext layouts",
 	})
 	simrt.Register(&simrt.Scenario{
+		Prop: "C02", Name: "stall-inside-record", Enumerated: true, Count: fixed(3 * 2 * len(c02StallVals) * 37),
+		Run: c02Stall, MaxOps: 1 << 20, Horizon: time.Hour,
+		Doc: "the relay withholds the stream at every byte offset 0..36 inside a 2-byte record (18-byte header, 18-byte body) until the reader's read deadline has fired, then delivers everything; the reader keeps calling Read. Enumerated over the record's content (big-endian 0, 1, 2, 3, 18, 300 - values that a parser which lost its place would take for lengths), Machine / NoiseConn / NoiseGrpcConn, XX and KK: what is returned stays a prefix of what the peer wrote",
+	})
+	simrt.Register(&simrt.Scenario{
 		Prop: "C02", Name: "edit-scripts", Count: tiered(12000, 1600000),
 		Run: c02Scripts, MaxOps: 2 << 20, Horizon: time.Hour,
 		Doc: "both directions of an XX/KK session exposed through Machine, NoiseConn or NoiseGrpcConn; random scripts of 1-4 edits (drop, duplicate, swap, replay-earlier, reflect-other-direction, truncate, inject, bit flip, at record boundaries and mid-record offsets) applied to the ciphertext stream; the reader's output must be a prefix of what was written and stay failed after the first error",
@@ -549,4 +554,108 @@ func c02DistanceReplay(rc *simrt.RunCtx) {
 	rc.Sample("kk=%v: record %d replayed in place of record %d (distance %d): rejected", kk, k, pos, d)
 	rc.Progress()
 	rc.Fault(fmt.Sprintf("replay-distance-%d", idx))
+}
+
+var c02StallVals = []int{0, 1, 2, 3, 18, 300}
+
+// c02Stall: a read that times out in the middle of a record - the relay just
+// withholds the rest for a while - must not make a later read return
+// anything the peer did not write at that place.
+func c02Stall(rc *simrt.RunCtx) {
+	idx := rc.Idx()
+	cut := idx % 37
+	v := c02StallVals[(idx/37)%len(c02StallVals)]
+	api := []string{"machine", "grpcconn", "noiseconn"}[(idx/(37*len(c02StallVals)))%3]
+	kk := idx/(37*len(c02StallVals)*3) == 1
+	s := establish(rc, kk, 100)
+	if s == nil {
+		return
+	}
+	s.ca.out.swallow()
+	first := s.ca.out.segCount()
+	var ncCli, ncSrv *NoiseConn
+	if api == "noiseconn" {
+		ncCli = &NoiseConn{conn: s.ca, noise: s.cli.conn.noise}
+		ncSrv = &NoiseConn{conn: s.cb, noise: s.srv.conn.noise}
+	}
+	plains := [][]byte{marker(1, 40), {byte(v >> 8), byte(v)}, marker(3, 300), marker(4, 5)}
+	for i, p := range plains {
+		var err error
+		switch api {
+		case "machine":
+			if err = s.cli.conn.noise.WriteMessage(p); err == nil {
+				_, err = s.cli.conn.noise.Flush(s.ca)
+			}
+		case "grpcconn":
+			_, err = s.cli.net.Write(p)
+		default:
+			_, err = ncCli.Write(p)
+		}
+		if err != nil {
+			rc.HarnessError("write %d: %v", i, err)
+			return
+		}
+	}
+	var stream, all []byte
+	var offs []int
+	for i, p := range plains {
+		offs = append(offs, len(stream))
+		stream = append(stream, recordBytes(s.ca.out, first, i)...)
+		all = append(all, p...)
+	}
+	at := offs[1] + cut
+	rc.Knob("case", fmt.Sprintf("kk=%v api=%s record=%04x stall-at=%d", kk, api, v, cut))
+	rc.Sample("kk=%v api=%s: 2-byte record %04x, stream withheld %d bytes into it until the reader timed out", kk, api, v, cut)
+	s.ca.out.inject(stream[:at])
+	var got []byte
+	errs, timeouts := 0, 0
+	released := false
+	for attempts := 0; attempts < 40 && errs < 4; attempts++ {
+		s.cb.SetReadDeadline(time.Now().Add(time.Second))
+		var b []byte
+		var err error
+		switch api {
+		case "machine":
+			b, err = s.srv.conn.noise.ReadMessage(s.cb)
+		case "grpcconn":
+			buf := make([]byte, 70000)
+			var n int
+			n, err = s.srv.net.Read(buf)
+			b = buf[:n]
+		default:
+			buf := make([]byte, 70000)
+			var n int
+			n, err = ncSrv.Read(buf)
+			b = buf[:n]
+		}
+		if err != nil {
+			if !released {
+				// the reader has seen its timeout: now the relay lets
+				// the rest through
+				released = true
+				timeouts++
+				s.ca.out.inject(stream[at:])
+				rc.Fault("stall-until-read-timeout")
+				continue
+			}
+			errs++
+			continue
+		}
+		got = append(got, b...)
+		if !hasPrefix(all, got) {
+			rc.Violate("c02.prefix", "stall-inside-record", "kk=%v via %s: after a read timeout %d bytes into the 2-byte record %04x (nothing was altered, the rest arrived later) the reader was given %d bytes that are not a prefix of what the peer wrote (first difference at byte %d: got %x)", kk, api, cut, v, len(got), firstDiff(got, all), b)
+			return
+		}
+	}
+	if !released {
+		rc.HarnessError("the reader never timed out although %d bytes were withheld", len(stream)-at)
+		return
+	}
+	if cut == 0 && len(got) != len(all) {
+		// nothing of the record had been consumed when the timeout fired:
+		// the retry must simply go on
+		rc.Violate("c02.clean-stream-short", "timeout-at-record-boundary", "kk=%v via %s: a read timeout exactly between two records, nothing altered: only %d of %d bytes were returned afterwards", kk, api, len(got), len(all))
+		return
+	}
+	rc.Progress()
 }
